@@ -458,6 +458,11 @@ pub fn c01(o: &Opts, t: &mut Tracer) -> Value {
         let expect = body_m && ci % 4 == 1;
         let mut rq = RqCfg { method: method.into(), ver10, expect, connclose: ci % 17 == 0, despite: false,
                              framing: match framing { "cl" => "cl2".into(), "chunked" => "chunked".into(), _ => "default".into() }, conn_other: None, expect_extra: false };
+        // header names with several values each on the request
+        crate::flowbox::REPEATED_HEADERS.with(|x| x.set(ci % 7 == 3));
+        if ci % 7 == 3 {
+            t.class("c01:repeated-header-names");
+        }
         // a sized request body needs its real length
         let cl_text = payload_len.to_string();
         let nresp = 1 + ci % 3;
@@ -473,6 +478,11 @@ pub fn c01(o: &Opts, t: &mut Tracer) -> Value {
             let redirect = (300..400).contains(&status);
             let fr = if nb { ["none", "cl"][rng.gen_range(0..2)] } else if last && !redirect && rng.gen_bool(0.25) { "close" } else { ["cl", "chunked"][rng.gen_range(0..2)] };
             let blen = if nb && fr == "cl" { 0 } else { [0usize, 1, 7, 300, 5000][rng.gen_range(0..5)] };
+            // now and then a response far larger than any window the library could have a notion of
+            let blen = if ci % 9 == 4 && k == 0 && !(nb && fr == "cl") { [100_000usize, 70_000, 140_000][(ci / 9) % 3] } else { blen };
+            if blen >= 70_000 && !nb && fr != "none" {
+                t.class("c01:response-over-64k-in-one-window");
+            }
             let rs = RespSpec { interim100: expect && rng.gen_bool(0.6), status, ver10: fr == "close" && rng.gen_bool(0.5), framing: fr,
                                 body: if fr == "none" || nb { vec![] } else { payload(blen, (ci * 7 + k) as u64) }, conn_close: rng.gen_bool(0.1) };
             // (give-up schedules need a server that sends its 100 in every exchange of the connection)
@@ -601,5 +611,6 @@ pub fn c01(o: &Opts, t: &mut Tracer) -> Value {
             }
         }
     }
+    crate::flowbox::REPEATED_HEADERS.with(|x| x.set(false));
     json!({"runs": runs})
 }
